@@ -385,5 +385,22 @@ def observe_where(Ps, amap, entries=("attr", "derive")):
                     ts = rev.get(a, ["unknown:" + a])
                     tags += ts if len(ts) == 1 else ["ambiguous:" + a]
                 impls.append(sorted(tags))
-        events.append({"ev": "where", "P": P, "entry": entry, "impls": impls, "nerr": nerr, "strict": bool(P.get("strict", False))})
+        ev = {"ev": "where", "P": P, "entry": entry, "impls": impls, "nerr": nerr, "strict": bool(P.get("strict", False))}
+        # declared INLINE bounds that mention `Self`: in every generated impl (also those for `&X<..>`) they must read as written,
+        # with `Self` = the item type
+        if any("Self" in (p.get("inline") or "") for p in P["params"]) and r.get("class") not in ("panic", "unlexable", "unparsable"):
+            gs = generics_src(P)
+            args = ", ".join([pname(P, i + 1) for i, p in enumerate(P["params"]) if p["k"] == "lifetime"] +
+                             [pname(P, i + 1) for i, p in enumerate(P["params"]) if p["k"] == "type"] +
+                             [pname(P, i + 1) for i, p in enumerate(P["params"]) if p["k"] == "const"])
+            want = re.sub(r"\s+", "", gs[1:-1].replace("Self", "X<%s>" % args))
+            its = [i for i in r["items"] if i["kind"] == "impl" and i["trait"].split("::")[-1] == P["t"]]
+            me = re.sub(r"\s+", "", "X<%s>" % args)
+
+            def seen(it):
+                g = re.sub(r"\s+", "", it.get("generics") or "").rstrip(",")
+                # in an impl for the item type itself `Self` may stay as written; in an impl for `&X<..>` it must have been spelled out
+                return g.replace("Self", me) if re.sub(r"\s+", "", it.get("self_ty") or "") == me else g
+            ev["generics_ok"] = [seen(it) == want for it in its]
+        events.append(ev)
     return events, reqs
